@@ -165,7 +165,7 @@ func v03QProtect(p v03QPkt) []byte {
 	if declared < 0 {
 		declared = 0
 	}
-	hdr = v03PutVarint(hdr, uint64(declared), 2)
+	hdr = v03PutVarint(hdr, uint64(declared), max(2, v03MinWidth(uint64(declared))))
 	pnOff := len(hdr)
 	for i := p.pnLen - 1; i >= 0; i-- {
 		hdr = append(hdr, byte(p.pn>>(8*i)))
@@ -313,7 +313,30 @@ var v03BigVals = []uint64{0, 1, 2, 63, 64, 1199, 16383, 16384, 262143, 262144, 2
 // v03GenFrames: a hostile plaintext payload for an Initial packet.
 func v03GenFrames(rt *rapid.T) (pl []byte, desc string) {
 	hello, hdesc := v03GenClientHello(rt)
-	switch rapid.IntRange(0, 5).Draw(rt, "frameShape") {
+	switch rapid.IntRange(0, 6).Draw(rt, "frameShape") {
+	case 6: // a complete, well-formed CRYPTO stream at maximal sizes: a hello padded (extension 21) up to what one
+		// UDP datagram can carry, in 1..6 contiguous frames in any order, placed so that it ends at / just past the 256 KiB cap
+		padSz := rapid.SampledFrom([]int{60000, 60000, 16000, 4000, 1500}).Draw(rt, "bigPad")
+		big := v03ClientHello([]v03Ext{v03SNIExt("big.example"), {43, []byte{2, 3, 4}}, {21, make([]byte, padSz)}}, 32, 3)
+		base := rapid.SampledFrom([]uint64{0, 0, uint64(262144 - len(big)), uint64(262144 - len(big) + 1), 200000, 65536, 1}).Draw(rt, "bigBase")
+		k := rapid.IntRange(1, 6).Draw(rt, "bigParts")
+		type part struct {
+			off  uint64
+			data []byte
+		}
+		var parts []part
+		step := (len(big) + k - 1) / k
+		for o := 0; o < len(big); o += step {
+			parts = append(parts, part{base + uint64(o), big[o:min(len(big), o+step)]})
+		}
+		parts = rapid.Permutation(parts).Draw(rt, "bigPerm")
+		for _, p := range parts {
+			pl = append(pl, 0x06)
+			pl = v03Varint(pl, p.off)
+			pl = v03Varint(pl, uint64(len(p.data)))
+			pl = append(pl, p.data...)
+		}
+		return pl, fmt.Sprintf("big-crypto total=%d base=%d parts=%d", len(big), base, len(parts))
 	case 0: // the hello in one frame, maybe padded
 		pl = append(pl, make([]byte, rapid.IntRange(0, 3).Draw(rt, "padBefore"))...)
 		pl = append(pl, 0x06, 0x00)
